@@ -292,7 +292,11 @@ def check(ctx):
     cg = CallGraph(facts)
     check_S6(ctx, facts)
     check_S1(ctx, facts, cg)
-    check_S2(ctx, facts)
+    # SEM: the four public write paths interpreted end to end (api_abs): after a successful local write the same operation is handed
+    # to the batch distributor exactly once, as the matching mutation; subsumes the per-path clauses of S2
+    import api_abs
+    if not api_abs.check_api(ctx, facts, 'C01.S2.SEM'):
+        check_S2(ctx, facts)
     check_S2b(ctx, facts)
     check_S3(ctx, facts)
     check_S4(ctx, facts)
